@@ -75,7 +75,7 @@ partial def loop (cfg : String) (h : IO.FS.Stream) (st : Stats) : IO Stats := do
       let fresh := v.nontrivial && !st.seen.contains hsh
       let mut st := { st with cases := st.cases + 1, nontrivial := st.nontrivial + (if fresh then 1 else 0),
                               seen := if fresh then st.seen.insert hsh else st.seen }
-      if v.modelObs != " ".intercalate (words o) then
+      if v.modelObs != v.implObs.getD (" ".intercalate (words o)) then
         IO.println s!"DIFF\t{c}\t{o}\t{v.modelObs}"
         st := { st with diffs := st.diffs + 1 }
       if !v.rejects.isEmpty then
